@@ -32,16 +32,19 @@ clean:
 -include $(wildcard $(OUT)/*.d)
 
 # ---- multi-variant SEQ engines: one object per policy variant (parallel compilation), one binary per engine
-# $(1) = engine name, $(2) = variant numbers
+# $(1) = binary name, $(2) = variant numbers, $(3) = source base name, $(4) = compiler
 define MULTI
-$$(OUT)/$(1).v%.o: engines/$(1).cpp
+$$(OUT)/$(1).v%.o: engines/$(3).cpp
 	@mkdir -p $$(OUT)
-	$$(CXX) -std=c++11 $$(COMMON) -DSEQ_VARIANT=$$* -DVERIF_SECONDARY_TU -c -o $$@ $$<
-$$(OUT)/$(1).main.o: engines/$(1).cpp
+	$(4) -std=c++11 $$(COMMON) -DSEQ_VARIANT=$$* -DVERIF_SECONDARY_TU -c -o $$@ $$<
+$$(OUT)/$(1).main.o: engines/$(3).cpp
 	@mkdir -p $$(OUT)
-	$$(CXX) -std=c++11 $$(COMMON) -DSEQ_MAIN -c -o $$@ $$<
+	$(4) -std=c++11 $$(COMMON) -DSEQ_MAIN -c -o $$@ $$<
 $$(OUT)/$(1): $$(OUT)/$(1).main.o $$(addprefix $$(OUT)/$(1).v,$$(addsuffix .o,$(2)))
-	$$(CXX) $$(SAN) -o $$@ $$^
+	$(4) $$(SAN) -o $$@ $$^
 endef
-$(eval $(call MULTI,seq_list,0 1 2 3 4 5 6 7 8))
-$(eval $(call MULTI,seq_queue,0 1 2 3 4 5 6))
+CLANGXX ?= clang++
+$(eval $(call MULTI,seq_list,0 1 2 3 4 5 6 7 8,seq_list,$(CXX)))
+$(eval $(call MULTI,seq_queue,0 1 2 3 4 5 6,seq_queue,$(CXX)))
+$(eval $(call MULTI,seq_disp,0 1 2 3 4 5 6,seq_disp,$(CXX)))
+$(eval $(call MULTI,seq_disp_clang,0 1 2 3 4 5 6,seq_disp,$(CLANGXX)))
